@@ -54,6 +54,8 @@ def run(ctx, model):
     run_logix_histories(ctx, model)
     run_redundant_open(ctx, model)
     run_fragment_wrap(ctx, model)
+    run_status_histories(ctx, model)
+    run_single_request_groups(ctx, model)
     outs = model.batch(lines)
     for (stream, k, want), out in zip(pend, outs):
         if out != want:
@@ -168,6 +170,96 @@ def run_fragment_wrap(ctx, model):
                 break
         sess.sock.answer = None
         sess.sock.reply_filter = None
+        sess.close()
+
+
+def _wire_counts(frames):
+    import struct
+    fs = [f for f in frames if f[:2] == b"\x70\x00" and len(f) >= 46]
+    return fs, [struct.unpack_from("<H", f, 44)[0] for f in fs]
+
+
+def run_status_histories(ctx, model):
+    """connected histories against a target that answers with a CIP error status (every status byte in the thorough tier):
+    whatever the answers are — also 'resource unavailable' / 'busy' kinds of status a driver might want to retry on —
+    consecutive connected messages carry different counts and the target's duplicate detection stays silent."""
+    import pycomm3.cip_driver as cd
+    from props import transcripts as tr
+    rng = ctx.rng
+    statuses = list(range(256)) if ctx.tier == "thorough" else sorted({0, 1, 2, 3, 4, 5, 6, 8, 0x0C, 0x10, 0x1E, 0x26, 0xFF} | {rng.randrange(256) for _ in range(6)})
+    for st in statuses:
+        scn, _, _ = tr.gen_base(rng, policy=(True, True, True), generic=(st, rng.choice([(), (), (0x0100,)]), b"" if st else b"\x01\x02"))
+        assert model.ask("target.new " + scn) == "ok"
+        shared = tr.SharedNet(model, {})
+        d = cd.CIPDriver("10.0.0.1/bp/0")
+        d._sock = tr.NetSocket(shared)
+        ctx.case("status-history", ("sth", st))
+        try:
+            d.open()
+            for k in range(6):
+                d.generic_message(service=rng.choice([0x0E, 0x01, 0x4C]), class_code=0x70, instance=1, attribute=1, connected=True, name="g")
+            d.close()
+        except BaseException as e:  # noqa
+            if isinstance(e, (KeyboardInterrupt, SystemExit)):
+                raise
+            ctx.count("status-history/raised/" + core.exn_class(e))
+        log = model.ask("target.log")
+        frames, seqs = _wire_counts(shared.frames)
+        case = {"target_answers_with_status": st, "history": "open, 6 connected generic messages, close"}
+        for j in range(1, len(seqs)):
+            if seqs[j] == seqs[j - 1]:
+                ctx.violation("sequence-count-repeated", dict(case, frame_index=j), "count %d on two consecutive connected messages" % seqs[j])
+                break
+        if "repeated on consecutive" in log:
+            ctx.violation("target-duplicate-detection-fired", case, log[log.index("sequence count"):][:120])
+
+
+def run_single_request_groups(ctx, model):
+    """multi-tag reads and writes whose requests each need a packet of their own (every array fills more than half of the
+    connection), and repeated reads of one good and one unknown tag: packets that carry a single request, back to back."""
+    from props.c04 import sized_project
+    from props import logix as lx
+    rng = ctx.rng
+    for i in range(ctx.budget(6, 40)):
+        n = rng.choice([2, 3, 4])
+        size = rng.choice([300, 330, 400])
+        p = sized_project(rng, [(size, "a%d" % k) for k in range(n)], reads=[])
+        sess = lx.Session(model, p, conn_large=False)
+        if sess.open_error is not None:
+            sess.close()
+            continue
+        sess.log()
+        n0 = max(0, len(sess.sock.frames) - 1)
+        calls = []
+        try:
+            for rep in range(rng.choice([1, 2, 3])):
+                r = rng.random()
+                if r < 0.4:
+                    tags = ["a%d{%d}" % (k, size) for k in range(n)]
+                    calls.append(["read"] + tags)
+                    core.with_budget(60, sess.d.read, *tags)
+                elif r < 0.7:
+                    calls.append(["read", "a0", "no_such_tag"])
+                    for _ in range(3):
+                        core.with_budget(60, sess.d.read, "a0", "no_such_tag")
+                else:
+                    vals = [("a%d{%d}" % (k, size), [k] * size) for k in range(n)]
+                    calls.append(["write"] + [t for t, _ in vals])
+                    core.with_budget(60, sess.d.write, *vals)
+        except BaseException as e:  # noqa
+            if isinstance(e, (KeyboardInterrupt, SystemExit)):
+                raise
+        frames, seqs = _wire_counts(sess.sock.frames[n0:])
+        ctx.case("single-request-groups", ("srg", i, repr(calls)))
+        case = {"arrays": n, "bytes_each": size, "connection_size": 500, "calls": calls}
+        for j in range(1, len(seqs)):
+            if seqs[j] == seqs[j - 1]:
+                ctx.violation("sequence-count-repeated", dict(case, frame_index=j),
+                              "count %d on two consecutive connected messages (services %#x, %#x)" % (seqs[j], frames[j - 1][46], frames[j][46]))
+                break
+        log = sess.log()
+        if "repeated on consecutive" in str(log):
+            ctx.violation("target-duplicate-detection-fired", case, str(log)[:200])
         sess.close()
 
 
